@@ -158,6 +158,18 @@ CHECKS = {
         "Grey pairs (0.0/-0.0, NaN, one instant under two offsets) are never used as 'equal' or 'different' evidence.",
         "DESIGN.md 4/C12",
     ),
+    "C13": (
+        "exploration",
+        "property-based testing over datetimes x tzinfo kinds x input forms x storage formats + enumerated "
+        "display-setting matrix run in one worker process per setting (metamorphic: outputs must be byte-identical)",
+        "Generated datetimes (edge years, pre-1970, DST folds and gaps, fixed offsets with seconds, IANA zones, naive) "
+        "are constructed from objects, ISO text and epoch numbers and must come out aware with the input's wall fields "
+        "and offset; they are round-tripped through the binary stream, JSON, SQLite (same wall fields and offset) and "
+        "Avro (same UTC instant); for all 10 FLOW_RECORD_TZ x TZ settings a seed-derived record set must produce "
+        "identical stream/JSON/SQLite/Avro bytes, stored values and ==/hash results.",
+        "Sub-second UTC offsets are outside the domain; one listed known finding (datetime[] text in SQLite).",
+        "DESIGN.md 4/C13",
+    ),
 }
 
 NOT_APPLICABLE = {}
